@@ -56,7 +56,12 @@ def cases(draw, two_d=False):
     nf = draw(st.sampled_from([1, 1, 1, 2]))
     after = [{"how": draw(st.sampled_from(["same", "next", "next", "prev", "other", "family"])), "step": draw(st.sampled_from([1, 4, 4, 8, 64])),
               "a": draw(ops.abstract_op(METHODS))} for _ in range(draw(st.sampled_from([0, 1, 1, 2, 3])))]
-    return {"file": desc, "a": draw(ops.abstract_op(METHODS)), "backend": draw(st.sampled_from(["local", "blob"])), "after": after,
+    a = draw(ops.abstract_op(METHODS))
+    pre = None
+    if draw(st.integers(0, 2)) == 0:
+        # the same method on another item (or any other call) before the faulted one
+        pre = dict(a, u=[draw(st.floats(0, 1, exclude_max=True)) for _ in range(8)]) if draw(st.booleans()) else draw(ops.abstract_op(METHODS))
+    return {"file": desc, "a": a, "backend": draw(st.sampled_from(["local", "blob"])), "after": after, **({"pre": pre} if pre else {}),
             "faults": [[draw(st.floats(0, 1, exclude_max=True)), draw(st.sampled_from(KINDS)), draw(st.floats(0, 1, exclude_max=True))]
                        for _ in range(nf)],
             "ranks": draw(st.lists(st.integers(0, 20), min_size=0, max_size=20)),
@@ -119,6 +124,15 @@ def attempt(case, path, T, op, plan, total, after=()):
     backend = make_backend(case, path, total)
     r = SgzReader(backend)
     H = ops.Handles(path, T, reader=r)
+    if case.get("pre"):
+        # an earlier, undisturbed call on the same reader (what it leaves in the reader's caches must not be
+        # served in place of a later read that failed)
+        p0 = ops.concretise(T, case["pre"])
+        if p0 is not None and p0["m"] in ops.methods_for(T, reader_only=True):
+            try:
+                ops.perform(H, p0)
+            except Exception as e:
+                raise Violation(f"exception:{p0['m']}", f"undisturbed earlier call {p0}: {type(e).__name__}: {e}")
     backend.arm(dict(plan) if plan else None)
     try:
         try:
@@ -203,7 +217,7 @@ def run_case(case, ctx):
     nontriv = pk[0][0] > 0 or len(L) > 1 or bool(case.get("ranks"))
     hows = sorted({f["how"] for f in case.get("after") or []})
     return {"sig": [op["m"], case["backend"], pk[0][1], pos, fam, len(pk), bool(case.get("ranks")), hows] if (nontriv and res != "not-reached") else None,
-            "labels": [res, op["m"], case["backend"], pk[0][1]] + ["after:" + h for h in hows]}
+            "labels": [res, op["m"], case["backend"], pk[0][1]] + ["after:" + h for h in hows] + (["with-earlier-call"] if case.get("pre") else [])}
 
 
 # ---- complete enumeration of positions x kinds for one call per method on fixed files -------------
